@@ -122,7 +122,12 @@ def handlers : List (String × Handler) := [
       pure (code (linearConstraints ⟨← parseVal a, ← parseVal b, ← parseVal c, ← parseVal d, ← parseVal e⟩))
     | _ => none),
   ("vfy.Linear", fun args => match args with
-    | [a, b] => do pure (code (linearLayer ⟨← parseVal a, ← parseVal b⟩))
+    | [a, b, c, d] => do pure (code (linearLayer ⟨← parseVal a, ← parseVal b, ← parseVal c, ← parseVal d⟩))
+    | _ => none),
+  ("vfy.Lattice", fun args => match args with
+    | [a, b, c, j, lo, hi, ip, ini] => do
+      pure (code (latticeLayer ⟨← parseVal a, ← parseVal b, ← parseVal c, ← parseJU j, ← parseVal lo,
+        ← parseVal hi, ← parseVal ip, ← parseVal ini⟩))
     | _ => none),
   ("vfy.CategoricalCalibrationConstraints", fun args => match args with
     | [a, b, c] => do pure (code (categoricalConstraints ⟨← parseVal a, ← parseVal b, ← parseVal c⟩))
